@@ -8,9 +8,28 @@ SRC_NUM = ["v", "w"]
 TGT_NUM = ["x", "y"]
 
 
+class _Skip:
+    def __repr__(self):
+        return "<reference skipped>"
+
+
+SKIP = _Skip()     # model value of a reference whose function raised param.Skip: the target keeps what it has
+
+
+def _scaled(self):
+    return self.v * 2
+
+
+def _combo(self):
+    return self.scaled() + self.w
+
+
 def make_classes():
     S = type("S", (param.Parameterized,), {"v": param.Number(default=1), "w": param.Number(default=2),
-                                           "s": param.String(default="s0")})
+                                           "s": param.String(default="s0"),
+                                           # a dependent method that depends on another dependent method and a parameter
+                                           "scaled": param.depends("v")(_scaled),
+                                           "combo": param.depends("scaled", "w")(_combo)})
     T = type("T", (param.Parameterized,), {
         "x": param.Number(default=0, bounds=(-1000, 1000), allow_refs=True),
         "y": param.Number(default=0, bounds=(-1000, 1000), allow_refs=True),
@@ -36,6 +55,8 @@ def make_classes():
 #   ["nlist", [item...]]          list mixing references ["p", ...] and constants ["k", n]
 #   ["ndict", [item...]]          dict {'k0': item0, ...}
 #   ["str", si]                   S_si.param.s
+#   ["meth", si]                  the bound method S_si.combo = depends('scaled', 'w'), scaled = depends('v')
+#   ["skipbind", si, pn]          param.bind(f, S_si.param.<pn>) where f raises param.Skip for negative arguments
 
 _si = st.integers(0, 1)
 _pn = st.sampled_from(SRC_NUM)
@@ -47,7 +68,10 @@ num_ref = st.one_of(
     st.tuples(st.just("bind2"), _si, _pn, _si, _pn),
     st.tuples(st.just("dep"), _si, _pn),
     st.tuples(st.just("rx"), _si, _pn, _si, _pn, _kk),
+    st.tuples(st.just("meth"), _si),
 ).map(list)
+# a bound function that produces no value (raises Skip) while its argument is negative
+skip_ref = st.tuples(st.just("skipbind"), _si, _pn).map(list)
 _item = st.one_of(st.tuples(st.just("p"), _si, _pn), st.tuples(st.just("p"), _si, _pn), st.tuples(st.just("k"), st.integers(0, 9))).map(list)
 list_ref = st.lists(_item, min_size=1, max_size=3).map(lambda v: ["nlist", v])
 dict_ref = st.lists(_item, min_size=1, max_size=2).map(lambda v: ["ndict", v])
@@ -88,6 +112,17 @@ def build_ref(spec, srcs):
         def f(a):
             return a + 1
         return f, (lambda mv: mv[(si, pn)] + 1), {(si, pn)}
+    if k == "meth":
+        si = spec[1]
+        return srcs[si].combo, (lambda mv: mv[(si, "v")] * 2 + mv[(si, "w")]), {(si, "v"), (si, "w")}
+    if k == "skipbind":
+        _, si, pn = spec
+
+        def parse(a):
+            if a < 0:
+                raise param.Skip
+            return a + 0.5
+        return (param.bind(parse, srcs[si].param[pn]), (lambda mv: SKIP if mv[(si, pn)] < 0 else mv[(si, pn)] + 0.5), {(si, pn)})
     if k == "rx":
         _, si, pi, sj, pj, kk = spec
         return (srcs[si].param[pi].rx() * kk + srcs[sj].param[pj].rx(),
